@@ -68,6 +68,27 @@ Theorem C12_batch_accepts_iff : forall reqs t items,
 Proof. exact batch_opt_ok_iff. Qed.
 Print Assumptions C12_batch_accepts_iff.
 
+(** ** Each violation the property lists is an error *)
+
+(* wrong header count, wrong item count, successful item without payload or with the payload of
+   another operation: Batch (hence Request and ExecContext, which go through it) returns an error *)
+Theorem C12_batch_violations_are_errors : forall reqs r,
+  (r_count r <> len (r_items r) \/ len (r_items r) <> len reqs \/
+   exists i op it, nth_error reqs i = Some op /\ nth_error (r_items r) i = Some it /\ i_status it = success /\
+     (i_payload it = None \/ exists v, i_payload it = Some v /\ pval_operation v <> op)) ->
+  exists e, batch_opt reqs (TMsg r) = RErr e.
+Proof. exact batch_violation_is_error. Qed.
+Print Assumptions C12_batch_violations_are_errors.
+
+(* anything but the single successful item with a payload of the requested operation and of the
+   executor's response type is an error of ExecContext *)
+Theorem C12_exec_violations_are_errors : forall op rty t,
+  ~ (exists v, (exists it, t = TMsg {| r_count := 1; r_items := [it] |} /\ i_status it = success /\
+                           i_payload it = Some v /\ pval_operation v = op) /\ p_type v = rty) ->
+  exists e, exec_context true op rty t = RErr e.
+Proof. exact exec_violation_is_error. Qed.
+Print Assumptions C12_exec_violations_are_errors.
+
 (** ** A failed item is always surfaced as an error carrying the server's status, reason, message *)
 
 Theorem C12_request_failure_surfaces : forall op r it,
